@@ -121,50 +121,111 @@ func verbIndex(format, verb string) int {
 	return -1
 }
 
-// opaqueFormat returns a concrete, deterministic stand-in for formatted text.
+// opaqueFormat formats like fmt.Sprintf when every operand has a concrete printable form
+// (strings, numbers, bools, errors, Stringers, reflect.Types); anything else (symbolic values,
+// aggregates) is rendered as a placeholder. Formatting is never the subject of a property, but
+// dials builds struct tags and names with Sprintf, so concrete operands must format exactly.
 func opaqueFormat(format string, args value) value {
-	var sb strings.Builder
-	sb.WriteString(format)
-	if vs, ok := args.([]value); ok && len(vs) > 0 {
-		sb.WriteString(" «")
-		for i, v := range vs {
-			if i > 0 {
-				sb.WriteString(", ")
-			}
-			s := "?"
-			func() {
-				defer func() {
-					if r := recover(); r != nil && enginePanic(r) {
-						panic(r)
-					}
-				}()
-				if it, ok := v.(iface); ok {
-					switch x := it.v.(type) {
-					case string:
-						s = x
-					case symstr:
-						s = "<symbolic string>"
-					case sym:
-						s = "<symbolic>"
-					case engineErr:
-						s = describeStr(x.msg)
-					default:
-						if it.t != nil {
-							s = "<" + it.t.String() + ">"
-						} else {
-							s = "<nil>"
-						}
-					}
-				}
-			}()
-			if len(s) > 80 {
-				s = s[:80] + "…"
-			}
-			sb.WriteString(s)
-		}
-		sb.WriteString("»")
+	vs, _ := args.([]value)
+	nat := make([]interface{}, len(vs))
+	for i, v := range vs {
+		nat[i] = nativeArg(v)
 	}
-	return sb.String()
+	if format == "" {
+		return fmt.Sprint(nat...)
+	}
+	f := strings.ReplaceAll(format, "%w", "%v")
+	return fmt.Sprintf(f, nat...)
+}
+
+type placeholder string
+
+func (p placeholder) String() string { return string(p) }
+func (p placeholder) Format(f fmt.State, c rune) { f.Write([]byte(string(p))) }
+
+func nativeArg(v value) interface{} {
+	it, ok := v.(iface)
+	if !ok {
+		return placeholder("?")
+	}
+	if it.t == nil {
+		return nil
+	}
+	// errors and Stringers: use their own text
+	if ee, ok := it.v.(engineErr); ok {
+		return fmt.Errorf("%s", describeStr(ee.msg))
+	}
+	if rt, ok := it.v.(rtype); ok {
+		return placeholder(typeString(rt.t))
+	}
+	if it.t != errorType && it.t != rtypeType {
+		for _, mname := range []string{"Error", "String"} {
+			ms := theInterp.prog.MethodSets.MethodSet(it.t)
+			for k := 0; k < ms.Len(); k++ {
+				sel := ms.At(k)
+				if sel.Obj().Name() != mname {
+					continue
+				}
+				sig, _ := sel.Type().(*types.Signature)
+				if sig == nil || sig.Params().Len() != 0 || sig.Results().Len() != 1 {
+					continue
+				}
+				fn := theInterp.prog.MethodValue(sel)
+				if fn == nil {
+					continue
+				}
+				var res value
+				okc := false
+				func() {
+					defer func() {
+						if r := recover(); r != nil {
+							if enginePanic(r) {
+								panic(r)
+							}
+						}
+					}()
+					res = call(theInterp, nil, 0, fn, []value{it.v})
+					okc = true
+				}()
+				if okc {
+					if s, ok := res.(string); ok {
+						if mname == "Error" {
+							return fmt.Errorf("%s", s)
+						}
+						return placeholder(s)
+					}
+					return placeholder(describeStr(res))
+				}
+			}
+		}
+	}
+	switch x := it.v.(type) {
+	case string:
+		return x
+	case bool, int, int8, int16, int32, int64, uint, uint8, uint16, uint32, uint64, uintptr, float32, float64, complex64, complex128:
+		return x
+	case symstr:
+		return placeholder("<symbolic string>")
+	case sym:
+		return placeholder("<symbolic>")
+	case []value:
+		// slices of basic values print like Go slices
+		out := make([]interface{}, 0, len(x))
+		elemT := it.t
+		if st, ok := it.t.Underlying().(*types.Slice); ok {
+			elemT = st.Elem()
+		}
+		for _, e := range x {
+			out = append(out, nativeArg(iface{t: elemT, v: e}))
+		}
+		return out
+	case *value:
+		if x == nil {
+			return placeholder("<nil>")
+		}
+		return placeholder("0xc000000000")
+	}
+	return placeholder("<" + typeString(it.t) + ">")
 }
 
 // unwrapErr calls err.Unwrap() if the dynamic type has one.
